@@ -384,9 +384,21 @@ def check_mapping(ctx, rnd):
         # copy
         cp = mp.copy()
         before_maps, before_mirror = list(mp.maps), list(mp.mirror or [])
-        cp.append_map(random_small_map(rnd))
+        # ... appended to with a mirror registration (a copy must own its mirror table too)
+        free = [k for k in range(n) if not any(k in pr for pr in P)]
+        cp.append_map(random_small_map(rnd), rnd.choice(free) if free and rnd.random() < 0.7 else None)
         if list(mp.maps) != before_maps or list(mp.mirror or []) != before_mirror or len(cp.maps) != n + 1:
             bad("copy", "appending to a copy changed the original (or the copy)")
+        # and the other way round: the original grows, an earlier copy must not
+        cp2 = mp.copy()
+        orig = Mapping(list(maps), list(mirror) if mirror else None)
+        cp3 = orig.copy()
+        snap3 = (list(cp3.maps), list(cp3.mirror or []))
+        orig.append_map(random_small_map(rnd), rnd.choice(free) if free else None)
+        if (list(cp3.maps), list(cp3.mirror or [])) != snap3:
+            bad("copy", "appending to a mapping changed a copy taken earlier")
+        ctx.count("copy_independence_checks")
+        del cp2
         # append_mapping / append_mapping_inverted / invert
         other_maps = [random_small_map(rnd) for _ in range(rnd.randint(1, 3))]
         om = Mapping()
